@@ -138,7 +138,9 @@ def check_protos(f, mod, p, hit, tag):
     except Exception as e:
         try:
             onnx.checker.check_model(mp, full_check=False)
-            errs.append(("model_checker_full", str(e)[:300]))
+            # the whole message: nested subgraphs prefix the cause with one "(op_type:If ...)" frame per level, and the
+            # mechanism signature is read off the innermost cause
+            errs.append(("model_checker_full", str(e)[:3000]))
         except Exception as e2:
             errs.append(("model_checker", str(e2)[:300]))
     w = wellformed.check_model(mp, strict_global=True, forbid_input_as_output=True, require_subgraph_outputs_produced=True)
